@@ -80,6 +80,49 @@ TABLES = {
     },
 }
 
+# ---------------------------------------------------------------------------------------------------------------------------
+# Declaration TREES (C04): the RIFF container as the WAVE specification and the property statement describe it, written here
+# independently of the code: "RIFF" <u32 size of the rest> "WAVE" { <u32 chunk id> <u32 size of the chunk body> <body> }*,
+# fmt body = 16 bytes with byte rate and block align COMPUTED from the other fields, smpl body = 9 u32 + 24-byte loops,
+# data body = the generator's blocks.  With construct's (trusted) semantics of Prefixed (length of the built sub-construct as u32le, then
+# its bytes, length field not included) and GreedyRange (every list element in order) this gives: RIFF size = file length - 8,
+# declared chunk sizes add up to the file, smpl size = 36 + 24 * loop count.
+def _p(path):
+    return {"path": f"this['{path}']"}
+
+
+def _bin(op, a, b):
+    return {"op": op, "lhs": a, "rhs": b}
+
+
+_FMT_BODY = {"Struct": [
+    ["audio_format", "u16le"], ["channel_cnt", "u16le"], ["sample_rate", "u32le"],
+    ["byte_rate", {"Rebuild": {"sub": "u32le", "func": _bin("floordiv", _bin("mul", _bin("mul", _p("sample_rate"), _p("channel_cnt")), _p("bits_per_sample")), {"const": 8})}}],
+    ["block_align", {"Rebuild": {"sub": "u16le", "func": _bin("floordiv", _bin("mul", _p("channel_cnt"), _p("bits_per_sample")), {"const": 8})}}],
+    ["bits_per_sample", "u16le"]]}
+_LOOP = {"Struct": [["cue_id", "u32le"], ["loop_type", {"Enum": "u32le", "map": {"FORWARD": 0, "ALTERNATING": 1, "REVERSE": 2, "UNKNOWN": 3}}],
+                    ["start_byte", "u32le"], ["end_byte", "u32le"], ["fraction", "u32le"], ["play_cnt", "u32le"]]}
+_SMPL_BODY = {"Struct": [
+    ["manufacturer", "u32le"], ["product", "u32le"], ["sample_period", "u32le"], ["midi_note", {"ExprAdapter": "u32le"}], ["pitch_fraction", "u32le"],
+    ["smpte_format", {"Enum": "u32le", "map": {"NONE": 0, "FPS24": 24, "FPS25": 25, "FPS30_DROP": 29, "FPS30": 30}}], ["smpte_offset", "u32le"],
+    ["sample_loop_cnt", {"Rebuild": {"sub": "u32le", "func": {"func": "len", "operand": _p("sample_loops")}}}],
+    ["sampler_data_size", {"Rebuild": {"sub": "u32le", "func": {"func": "len", "operand": _p("sampler_data")}}}],
+    ["sample_loops", {"Array": {"count": _p("sample_loop_cnt"), "sub": _LOOP}}],
+    ["sampler_data", {"Array": {"count": _p("sampler_data_size"), "sub": "u8"}}]]}
+_CHUNK = {"Struct": [
+    ["riff_id", {"Enum": "u32le", "map": {"FMT": int.from_bytes(b"fmt ", "little"), "SMPL": int.from_bytes(b"smpl", "little"),
+                                          "DATA": int.from_bytes(b"data", "little")}}],
+    ["data", {"Prefixed": {"length": "u32le", "includelength": False,
+                           "sub": {"Switch": {"key": _p("riff_id"), "cases": {"FMT": _FMT_BODY, "SMPL": _SMPL_BODY, "DATA": {"Lazy": {"GreedyRange": "GreedyBytes"}}},
+                                              "default": "Pass"}}}}]]}
+SHAPES = {
+    "formats.wav:RiffStruct": {"Struct": [
+        ["fourcc", {"Const": b"RIFF".hex()}],
+        ["data", {"Prefixed": {"length": "u32le", "includelength": False,
+                               "sub": {"Struct": [["fourcc", {"Const": b"WAVE".hex()}], ["chunks", {"GreedyRange": _CHUNK}]]}}}]]},
+}
+SHAPES_BY_PROPERTY = {"C04": ["formats.wav:RiffStruct"]}
+
 BY_PROPERTY = {
     "C20": ["akai.sample:SampleHeaderConstruct", "roland.sample_entry:SampleParamEntryStruct", "roland.sample_entry:SampleParamLoopPointStruct"],
     "C01": ["akai.sample:SampleHeaderConstruct", "akai.file_entry:FileEntryConstruct", "akai.volume:VolumeEntryConstruct",
